@@ -550,7 +550,7 @@ def r6_loader_order(ctx, rule):
         for nn in walk_local(fn):
             if isinstance(nn, ast.Assign) and isinstance(nn.targets[0], ast.Subscript) and U(nn.targets[0].value) == g:
                 v = nn.value
-                okv = (isinstance(v, ast.List) and (not v.elts or (len(v.elts) == 1 and isinstance(v.elts[0], ast.Name))))
+                okv = (isinstance(v, ast.List) and (not v.elts or (len(v.elts) == 1 and isinstance(v.elts[0], (ast.Name, ast.Dict)))))   # a one-group list is trivially ordered
                 if not okv:
                     probs.append(U(nn)[:70])
         if probs:
